@@ -81,6 +81,8 @@ type Context struct {
 	watchers      map[string]vivid.ActorRef          // 正在监听该 Actor 终止事件的 ActorRef，其中 key 为 ActorRef 的完整路径
 	stash         []vivid.Envelop                    // 暂存区
 	scheduler     *Scheduler                         // 调度器
+	launched      bool                               // 是否已处理过 OnLaunch
+	beforeLaunch  []vivid.Envelop                    // 在 OnLaunch 之前到达、暂存待补处理的消息
 }
 
 func (c *Context) Cluster() vivid.ClusterContext {
@@ -310,6 +312,28 @@ func (c *Context) PipeTo(recipient vivid.ActorRef, message vivid.Message, forwar
 }
 
 func (c *Context) HandleEnvelop(envelop vivid.Envelop) {
+	// OnLaunch 必须是 Actor 看到的第一条消息。ActorOf 先登记路径（对外可见）再投递 OnLaunch，
+	// 持有按路径构造的引用（CreateRef / ParseRef）的发送方可能恰好在这两步之间投递消息并抢先被处理。
+	// 在 OnLaunch 处理完成之前到达的消息先行暂存，待 OnLaunch 处理后按到达顺序立即补处理：
+	// 它们先于邮箱中其余消息出队，因此不改变任何发送方的消息顺序。根 Actor 不会收到 OnLaunch，不受此限。
+	if !c.launched && c.parent != nil {
+		if _, isLaunch := envelop.Message().(*vivid.OnLaunch); !isLaunch {
+			c.beforeLaunch = append(c.beforeLaunch, envelop)
+			return
+		}
+		c.launched = true
+		c.handleEnvelop(envelop)
+		held := c.beforeLaunch
+		c.beforeLaunch = nil
+		for _, e := range held {
+			c.handleEnvelop(e)
+		}
+		return
+	}
+	c.handleEnvelop(envelop)
+}
+
+func (c *Context) handleEnvelop(envelop vivid.Envelop) {
 	// 非运行状态下：
 	// - 普通消息一律推入死信队列
 	// - 系统消息在 killing 阶段仍需要处理（例如子 Actor 的 OnKilled 事件），否则终止流程无法闭环
